@@ -702,6 +702,10 @@ def plan(pid: str, tier: str, rng: random.Random) -> list[dict]:
         for name, spec in list(fam.items()) + rnd[: (40 if thorough else 8)]:
             for st in spec["stages"]:
                 add(kind="policy", policy="starve:" + st["ref"], spec=spec, name=name)
+                # ... and every synthetic child in turn (its StartStage is overtaken by its siblings' whole chains)
+                for kind in ("before", "after", "on_failure"):
+                    for ch in st.get(kind, []):
+                        add(kind="policy", policy="starve:" + ch["ref"], spec=spec, name=name)
     if pid in ("C01", "C06", "C13"):
         names = list(fam) if thorough else CRASH_QUICK
         # every commit of the uninterrupted FIFO run is a crash point: measure the runs first
@@ -776,6 +780,17 @@ def plan(pid: str, tier: str, rng: random.Random) -> list[dict]:
         sus = {"suspend": fam["suspend"],
                "suspend2": {"stages": [S("A"), S("B", ["A"], tasks=[["ok"], ["susp", "ok:k1=1"]]), S("C", ["B"])]},
                "suspend_twice": {"stages": [S("A", tasks=[["susp", "susp", "ok"]]), S("B", ["A"])]}}
+        # a persistent signal buffered for a stage that has not suspended yet must survive a re-arm of that stage by a jump
+        # loop (the gate is downstream of the loop's target, so every iteration resets it)
+        loops = {"loop_gate": ({"stages": [S("A", tasks=[["jump:A", "ok"]]), S("G", ["A"], tasks=[["susp", "ok:k1=1"]]), S("Z", ["G"])]}, 1),
+                 "cycle_gate": ({"stages": [S("A"), S("B", ["A"], tasks=[["jump:A", "ok"]]), S("G", ["A"], tasks=[["ok"], ["susp", "ok"]]),
+                                            S("Z", ["B", "G"])]}, 2)}
+        for n, (spec, stage) in loops.items():
+            for at in range(0, 22 if thorough else 14):
+                for pol in (("fifo", "random", "lifo") if thorough else ("fifo", "random")):
+                    add(kind="inject", what="signal", stage=stage, signame=1, persistent=True, at=at, spec=spec, name=n, policy=pol)
+            for at in range(0, 10, 3):
+                add(kind="inject", what="signal", stage=stage, signame=1, persistent=False, at=at, spec=spec, name=n, policy="fifo")
         for n, spec in sus.items():
             stage = 1 if n == "suspend2" else 0
             for at in range(0, 16):
